@@ -1,9 +1,14 @@
 #!/bin/bash
 # usage: tools/try_seed.sh <patch.diff> <check ids...> : applies a seeded change to /repo, runs the quick checks, reverts.
+# The evidence files and replays written while the change is applied are discarded (evidence must come from the real tree).
 P=$(realpath $1); shift
-git -C /repo apply "$P" || { echo "patch does not apply"; exit 2; }
+cd "$(dirname "$0")/.."
+SAVE=$(mktemp -d /tmp/try-seed-ev.XXXXXX)
+cp -a evidence "$SAVE/evidence"
+git -C /repo apply "$P" || { echo "patch does not apply"; rm -rf "$SAVE"; exit 2; }
 for id in "$@"; do
   echo "== $id"; timeout 1800 ./check $id --tier quick 2>&1 | grep -E "^(VIOLATION|KNOWN|OK|  #)" | head -8
 done
-git -C /repo checkout -- . 
-git -C /repo status --short | head -3
+git -C /repo checkout -- .
+rm -rf evidence; mv "$SAVE/evidence" evidence; rm -rf "$SAVE"
+git -C /repo status --short | grep -v "_build" | head -3
